@@ -2,6 +2,7 @@ package namer
 
 import (
 	"go/token"
+	"go/types"
 	"slices"
 	"strconv"
 	"strings"
@@ -65,6 +66,11 @@ func (tracker *defaultImportTracker) add(path string) {
 
 func (tracker *defaultImportTracker) bind(path string, localName string) bool {
 	if token.IsKeyword(localName) {
+		return false
+	}
+
+	// a predeclared identifier (int, string, error, len, ...) would be shadowed in the generated file
+	if types.Universe.Lookup(localName) != nil {
 		return false
 	}
 
